@@ -352,6 +352,28 @@ func (r *runner) execute(mode string, seed int64, pick picker) (ex execution) {
 			doOp("final", op{Op: "get", K: k})
 		}
 		doOp("final", op{Op: "keys"})
+		// Close and Open: the committed state the concurrent execution left behind must survive as it is
+		before := map[string]string{}
+		for _, k := range r.prog.Keys {
+			b, err := db.Get(ctx, r.m.Key(k))
+			before[k] = drv.Class(err) + ":" + string(b)
+		}
+		if cErr := db.Close(); cErr == nil {
+			db2, oErr := inline.Open(ctx, cfg)
+			if oErr != nil {
+				ex.Outcome, ex.Detail = "reopen", "reopen failed: "+oErr.Error()
+				return
+			}
+			db = db2
+			for _, k := range r.prog.Keys {
+				b, err := db.Get(ctx, r.m.Key(k))
+				if got := drv.Class(err) + ":" + string(b); got != before[k] {
+					ex.Outcome = "reopen"
+					ex.Detail = fmt.Sprintf("after the concurrent execution key %s read %d bytes (%s); after Close and Open it reads %d bytes (%s)", k,
+						len(before[k]), strings.SplitN(before[k], ":", 2)[0], len(got), strings.SplitN(got, ":", 2)[0])
+				}
+			}
+		}
 	} else {
 		verif.SetAt(nil)
 	}
